@@ -166,7 +166,7 @@ class Prop(PropBase):
                 out["joint_err"] = err_name(e)
         out["same_object"] = bool(y0 is z)
         out["meta"] = bool(type(y0) is type(z) and y0.sample_rate == z.sample_rate and y0.shape == z.shape
-                           and y0.dtype == z.dtype
+                           and sigs.same_dtype(y0.dtype, z.dtype)
                            and ((y0.start_time is None and z.start_time is None) or
                                 (y0.start_time is not None and z.start_time is not None and bool(y0.start_time == z.start_time))))
         d0 = np.asarray(y0.data).reshape(N, -1)
